@@ -145,6 +145,13 @@ func Walk(root *WNode, rootPath string, o WalkOpts, skips []string) WalkResult {
 						loop = true
 					}
 				}
+				// ... or one of the directories above the root (the walker compares the link with every
+				// directory named on the way from the current directory down to it)
+				for a := root.Parent; a != nil; a = a.Parent {
+					if a == t {
+						loop = true
+					}
+				}
 				if !loop {
 					visit(t, p, anc)
 				}
